@@ -14,7 +14,7 @@ CLAIMED = {
         "representation invariant, exact window/eviction/disconnection semantics, true heights, frames, for all keys/values/sequences of calls.",
    note=TB + " A2: keys of distinct live blocks are disjoint. TxIndex::new not under contract. F4 (window shrinks after a disconnect) is a recorded finding.",
    technique="contract-based deductive verification (Verus requires/ensures/loop invariants on mechanically extracted functions)",
-   ref="4 C19, Appendix A.1"),
+   ref="DESIGN.md §4 C19, §6"),
 }
 
 CLAIMED.update({
@@ -24,14 +24,14 @@ CLAIMED.update({
         "returned == in-memory == persisted on every path (mirror invariant); the f32 slot formula is proved == ceil(n/2048) and >= 1 for all 1 <= n <= 2^24 by a loop-free Kani function contract.",
    note=TB + " DBM SQL semantics assumed; A1 no-overflow precondition; blobs <= 2^24 bytes. The Watcher-side chain (who calls these with which row) is covered by the watcher unit when claimed under C01/C08.",
    technique="contract-based deductive verification (Verus) + Kani function contract (proof_for_contract, loop-free, complete) for the float formula",
-   ref="4 C07, Appendix A.2"),
+   ref="DESIGN.md §4 C07, §6"),
  "C09": dict(
    text="Deductive proof on the real text of Gatekeeper::{add_update_user, has_subscription_expired, get_outdated_users, filtered_block_connected, block_disconnected}: window (S,h,h+D) / renewal "
         "(+S checked, start kept, expiry +D saturating), expired <=> height >= expiry with the expiry returned, purge removes exactly the users with height >= expiry + delta from memory and database "
         "(cascade only to their appointments), others untouched, height stored / decremented; for every (S, D, delta) incl. 0 and u32::MAX.",
    note=TB + " A4 heights < u32::MAX; cascade semantics of batch_remove_users assumed (SQL).",
    technique="contract-based deductive verification (Verus requires/ensures/loop invariants on mechanically extracted functions)",
-   ref="4 C09, Appendix A.2"),
+   ref="DESIGN.md §4 C09, §6"),
 })
 
 VT = "contract-based deductive verification (Verus requires/ensures/loop invariants on mechanically extracted functions; collaborators as stubs carrying the contract their own unit proves)"
@@ -42,46 +42,46 @@ CLAIMED.update({
         "before the call returns, tracked with exactly (dispute, decrypt(blob, txid)), listed for dropping (undecryptable / node rejected), or its penalty is known to the node as confirmed; only matched appointments are touched. "
         "Whole-history form = this step invariant (winv/rinv are re-established by every entry point) ; no trace induction beyond that.",
    note=TB + " LDK ordering of block events, A2 fresh/distinct locators, decrypt = uninterpreted dec_spec (wiring proved in the blob unit). Known finding F3 (node says -27) is reported on every run.",
-   technique=VT, ref="4 C01, Appendix A.3"),
+   technique=VT, ref="DESIGN.md §4 C01, §6"),
  "C02": dict(
    text="Deductive proof that every sendrawtransaction call (ghost call log of the RPC oracle) made by Watcher/Responder entry points carries the decrypted penalty of a matched stored appointment, or the dispute/penalty of a "
         "tracker flagged as reorged, or the penalty of a tracker waiting >= 6 blocks; queries and disconnections send nothing; a tracker row is created only for status accepted() (index / mempool / node OK); "
         "disconnected blocks' cache entries are purged (TxIndex contract).",
    note=TB + " The call-site enumeration is by contract frames of the functions under contract; `send_raw_transaction` call sites outside them are reported by the anchor check.",
-   technique=VT, ref="4 C02"),
+   technique=VT, ref="DESIGN.md §4 C02, §6"),
  "C04": dict(
    text="Deductive proof on the real text of Responder::{check_confirmations, handle_reorged_txs, rebroadcast_stale_txs, filtered_block_connected, block_disconnected, handle_breach}, ConfirmationStatus::*, "
         "Gatekeeper::delete_appointments: completed <=> confirmed, not reorged, exactly 100 deep; refund exactly for completed trackers (end-to-end equation on the users table), none for rejected ones; reorged trackers are "
         "marked on disconnection and re-submitted (dispute then penalty) on the next connection; stale (>= 6 blocks) penalties re-submitted; confirmed heights never exceed the indexed tip (invariant).",
    note=TB + " LDK delivers blocks in order; A1 ledger bound, A3 height >= 6, A4 heights < u32::MAX. Known finding F7 (rebroadcast answered -27) reported on every run; F12 fixed (7582f3f).",
-   technique=VT, ref="4 C04, Appendix A.3"),
+   technique=VT, ref="DESIGN.md §4 C04, §6"),
  "C06": dict(
    text="Deductive proof on Gatekeeper::{authenticate_user, has_subscription_expired, get_user_info} and Watcher::{add_appointment, get_appointment, get_subscription_info}: success <=> the signature recovers, over exactly the "
         "request's message (appointment bytes / fmt(\"get appointment {locator}\") / \"get subscription info\"), to a registered, non-expired user; every refusal leaves all state unchanged; on success only rows at "
         "uuid(locator, that user) and that user's balance are read or written.",
    note=TB + " ECDSA recovery and RIPEMD160 are uninterpreted (injectivity of uuid assumed); format! rendering abstract (literal visible).",
-   technique=VT, ref="4 C06"),
+   technique=VT, ref="DESIGN.md §4 C06, §6"),
  "C08": dict(
    text="Deductive proof: receipts' to_vec equal the specified byte layouts, sign/verify are inverse under the signing axiom (wire unit); Watcher::register / add_appointment return receipts whose fields are the values "
         "persisted (slots, start, expiry) resp. the user's signature and the tower's height at acceptance, signed with the tower key; an Ok receipt implies stored-as-sent / responded / dropped-as-invalid; get_appointment "
         "returns the stored row's bytes.",
    note=TB + " DBM read-after-write and SQL column mapping assumed; response construction in InternalAPI is covered under C15 when claimed.",
-   technique=VT, ref="4 C08"),
+   technique=VT, ref="DESIGN.md §4 C08, §6"),
  "C16": dict(
    text="Narrowed: deductive proof that the signed byte layouts (Appointment, RegistrationReceipt, AppointmentReceipt, Locator, UserId) equal their spec functions and determine their fields uniquely (injectivity lemmas, "
         "big-endian u32 via bit-vector reasoning, UTF-8 via vstd's encode/decode lemma).",
    note=TB + " NOT covered: serde derive output, build.rs-injected attributes, serde_be/serde_status adapters (generic over Serializer), JSON framing, HTTP layer - code behind macros and libraries.",
-   technique=VT, ref="4 C16"),
+   technique=VT, ref="DESIGN.md §4 C16, §6"),
  "C17": dict(
    text="Narrowed: deductive proof of the wiring of cryptography::{encrypt, decrypt} (key = SHA256(txid), zero nonce, consensus (de)serialisation) hence decrypt(encrypt(t,k),k) == Ok(t) from the AEAD/consensus round-trip axioms; "
         "verify(m,s,pk) <=> recover_pk(m,s) == Ok(pk); Locator::new(k) == k[0..16].",
    note=TB + " Tamper rejection / wrong-key failure are properties of Poly1305/ECDSA: assumed, not proved.",
-   technique=VT, ref="4 C17"),
+   technique=VT, ref="DESIGN.md §4 C17, §6"),
  "C11": dict(
    text="Narrowed to abort-freedom: every unwrap/expect/index/arithmetic/cast/unreachable in the ~70 functions under contract (tx_index, gatekeeper, carrier, responder, watcher, wire, blob units) is a discharged obligation "
         "under the stated preconditions, and those preconditions are discharged at every verified call site. Deadlock/poisoning by interleavings is not decidable with this technique.",
    note=TB + " Known findings F3, F7 reported on every run; F5, F12 fixed.",
-   technique=VT, ref="4 C11"),
+   technique=VT, ref="DESIGN.md §4 C11, §6"),
 })
 
 PT = ("Trusted: Verus/Z3 (and rustc front end); prelude std specs; the client DBM stub transcribing watchtower-plugin/src/dbm.rs SQL as ghost relations; "
@@ -95,14 +95,14 @@ CLAIMED.update({
         "(locator length, appointment presence) are discharged from what the validators establish; a non-OK answer implies the Watcher/Gatekeeper state is unchanged (contracts of Watcher::* reused).",
    note=TB + " NOT covered: warp routing/filters (method, path, content-length, JSON body parsing), tonic transport, serde: code behind macros and libraries - requests are quantified at the typed level "
         "(every value of the request struct), not at the byte level. F1 (empty blob accepted) fixed by 5263709.",
-   technique=VT, ref="4 C15"),
+   technique=VT, ref="DESIGN.md §4 C15, §6"),
  "C20": dict(
    text="Deductive proof on the real text of Config::{get_auth_method, verify, default} (Verus) and complete loop-free Kani proofs of Config::patch_with_options for the tower and the CLI over every presence/absence "
         "combination of every option: each effective setting is the command-line value if given else the prior (file/default) value; overwrite_key / force_update are taken from the command line only; verify refuses unless "
         "exactly one authentication method is complete and the network is one of the four known ones, and selects the network's default RPC port iff none was set.",
    note=TB + " String contents are opaque tokens in the Kani harness (rule E17: String replaced by an opaque 8-byte token type, equality preserved); from_file (toml + serde defaults) is library code and not under contract: "
         "'file over defaults' is covered only as 'prior value kept when the option is absent'.",
-   technique="contract-based deductive verification (Verus) + loop-free Kani harnesses over kani::any() (complete, no unwinding bound)", ref="4 C20"),
+   technique="contract-based deductive verification (Verus) + loop-free Kani harnesses over kani::any() (complete, no unwinding bound)", ref="DESIGN.md §4 C20, §6"),
  "C14": dict(
    text="Deductive proof on the real text of net::http::{add_appointment, send_appointment, register (result handling)}, WTClient::{add_update_tower, flag_misbehaving_tower}, Retrier::run and the receipt "
         "verification of teos-common (wire unit): an acknowledgement is returned as accepted only if its signature recovers to the tower id the request was addressed to; a signature that recovers to another key yields a "
@@ -110,7 +110,7 @@ CLAIMED.update({
         "only if it strictly extends the known subscription, otherwise nothing changes; every unwrap/index/arithmetic in these functions is a discharged obligation for every value of the reply types.",
    note=PT + " Reply bodies are quantified at the typed level (every ApiResponse<T> / RequestError value), not raw bytes: reqwest and serde_json are not under contract. F11 (malformed signature panicked) fixed by 6f3994b; "
         "F10 (retrier unwrap on non-connection request errors) fixed by 4b1ac74. main.rs handlers are covered by the plugin_main unit when registered.",
-   technique=VT, ref="4 C14"),
+   technique=VT, ref="DESIGN.md §4 C14, §6"),
  "C18": dict(
    text="Deductive proof on the real text of WTClient::{add_update_tower, add_appointment_receipt, add_pending_appointment, remove_pending_appointment, add_invalid_appointment, move_pending_appointment_to_invalid, "
         "flag_misbehaving_tower, set_tower_status, remove_tower, get_tower_status}: the in-memory TowerSummary map mirrors the persisted relations after every mutator (mirror invariant: same towers, same pending/invalid sets, "
@@ -118,7 +118,7 @@ CLAIMED.update({
         "appointment body is deleted exactly when no other pending/invalid reference remains.",
    note=PT + " Reload after restart is covered through the mirror invariant and the DBM::load_towers stub contract (WTClient::new is async constructor glue, not under contract). F9 (a second record of the same kind for one "
         "(tower, locator) hits a UNIQUE constraint and unwraps) is expressed as preconditions pre.no-duplicate-* and checked at the call sites under contract.",
-   technique=VT, ref="4 C18"),
+   technique=VT, ref="DESIGN.md §4 C18, §6"),
 })
 
 CLAIMED.update({
@@ -132,7 +132,7 @@ CLAIMED.update({
    note=PT + " Sequential projection: one hook/command/retrier step at a time - revocations arriving while a retry is running are interleavings and are NOT covered (C10-style). Crash points: every mutator is a single "
         "SQLite transaction (assumed durable); a SIGKILL between the tower's acknowledgement and the insertion of the receipt is not modelled (no contract can express process death), CLN re-delivers unanswered hooks. "
         "F8 (garbage reply lost the appointment) fixed by 7001c0e, F9 (duplicate notification panicked with the state mutex held) fixed by 6ad5841; both replayed on the real binary (replay_tests/plugin_driver.py).",
-   technique=VT, ref="4 C05"),
+   technique=VT, ref="DESIGN.md §4 C05, §6"),
  "C13": dict(
    text="Narrowed to what single-call contracts decide: Retrier::run (terminates: decreases on the pending set; Ok implies nothing is pending; every request error is transient Unreachable i.e. back-off instead of a hot loop; "
         "subscription / misbehaviour / abandonment errors are permanent exactly as RetryError::is_permanent says), send_to_retrier (fresh data goes to the retry manager unless the tower's retrier exists and is not running: "
@@ -140,7 +140,7 @@ CLAIMED.update({
         "None resp. the stale pending set; otherwise nothing is sent), WTClient::set_tower_status (changes that tower's status only).",
    note=PT + " NOT covered (outside single-call contracts): delivery within the configured delays (timing/liveness), `at no time two retry loops for one tower` and the RetryManager::manage_retry state machine "
         "(tokio select loop, timers, spawned tasks, the backoff crate) - schedules and time. F10 (hot loop on garbage replies) fixed by 4b1ac74.",
-   technique=VT, ref="4 C13"),
+   technique=VT, ref="DESIGN.md §4 C13, §6"),
 })
 
 NA = {
@@ -181,7 +181,7 @@ m = {
               "kind_free_text": "mechanical extraction of real functions + Verus (deductive, unbounded) / Kani function contracts (loop-free, complete); bounded harnesses labelled bounded"}],
  "checks": checks,
  "not_applicable": na,
- "notes": "fix: commits in /repo: 4c8a027 (TxIndex::get_height), 94cd4a9 (Gatekeeper expiry arithmetic), 7582f3f (Responder reorged tracker of purged user). Known findings: /verif/known_findings.json.",
+ "notes": "fix: commits in /repo: 4c8a027 (F2), 94cd4a9 (F5), 7582f3f (F12), 5263709 (F1), 6f3994b (F11), 4b1ac74 (F10), 7001c0e (F8), 6ad5841 (F9), aa7929e (F13). Open known findings F3 F4 F7: /verif/known_findings.json. DESIGN.md §6.",
 }
 json.dump(m, open(os.path.join(VERIF, "MANIFEST.json"), "w"), indent=1)
 print("MANIFEST.json: %d checks, %d not_applicable" % (len(checks), len(na)))
